@@ -63,6 +63,14 @@ Definition call {R} (conn : bool) (outs : list (outcome R)) : cres R := call_loo
 
 Definition is_ok {R} (o : outcome R) : bool := match o with Ok _ => true | _ => false end.
 
+(* successive calls on one client: only the cached connection is carried from one call to the next
+   (the reply variable is local to each call) *)
+Fixpoint call_seq {R} (conn : bool) (calls : list (list (outcome R))) : list (cres R) :=
+  match calls with
+  | [] => []
+  | outs :: rest => let r := call conn outs in r :: call_seq (c_conn r) rest
+  end.
+
 (* ================= 2. from the handler's return to the attempt's outcome ================= *)
 
 (* the handler on the other side returns (r, nil) or (r, err); err.Error() may be "" *)
